@@ -12,6 +12,8 @@ type Mutant struct {
 	New    string
 	Old2   string // optional second replacement in the same file
 	New2   string
+	Old3   string // optional third replacement in the same file (e.g. an import)
+	New3   string
 	Expect string // substring of the obligation key that must be reported as violated
 }
 
